@@ -15,9 +15,9 @@ Startups == {Once(1), Once(2), Once(3), <<0, 1>>, <<0, 1, 2>>, <<0, 0, 1>>, <<1,
 Small == {Cfg(st, t, a, per, d) : st \in {Once(1), Once(2), <<0, 1>>, <<0, 0, 1>>}, t \in 0..2,
                                   a \in {-1, 0, 1, 2, 3}, per \in BOOLEAN, d \in BOOLEAN}
 Quick == {Cfg(st, t, a, per, d) : st \in {Once(1), Once(2), <<0, 1>>}, t \in 0..2,
-                                  a \in {-1, 0, 1, 2, 3}, per \in BOOLEAN, d \in BOOLEAN}
+                                  a \in {-1, 0, 1, 3}, per \in BOOLEAN, d \in BOOLEAN}
          \cup {Cfg(<<0, 0, 1>>, 2, a, per, FALSE) : a \in {-1, 1, 3}, per \in BOOLEAN}
-         \cup {CfgU(st, tm, a, per, FALSE) : st \in {Once(2), <<0, 1>>}, tm \in {0, 1, 2}, a \in {-1, 2},
+         \cup {CfgU(st, tm, a, per, FALSE) : st \in {Once(2), <<0, 1>>}, tm \in {0, 2}, a \in {-1, 2},
                                             per \in BOOLEAN}
 \* C12 quick family: startup shapes with 3 tokens / late first token, against RPS end and ammo end
 QuickStart == {Cfg(st, 2, a, per, FALSE) : st \in {<<0, 1, 2>>, <<0, 0, 1>>}, a \in {-1, 1, 3}, per \in BOOLEAN}
